@@ -2,6 +2,7 @@ package main
 
 import (
 	"fmt"
+	"go/token"
 	"go/types"
 	"strconv"
 	"strings"
@@ -59,6 +60,44 @@ func (g *Gen) ret(x *ssa.Return, st *State) {
 	}
 	for j, e := range g.c.Ensures {
 		g.assert(st, "ensures", fmt.Sprint(j+1), env.tr(e).S, g.c.EnsSrc[j], x.Pos())
+	}
+	g.frameObls(st, x.Pos())
+}
+
+// frameObls: the modifies clause is proved, not assumed.
+func (g *Gen) frameObls(st *State, pos token.Pos) {
+	if g.c == nil || !g.c.ModSet || g.c.ModAll {
+		return
+	}
+	allowed := map[string]string{}
+	for _, pat := range g.c.Modifies {
+		mode := "any"
+		if strings.HasPrefix(pat, "new ") {
+			mode = "new"
+		}
+		for _, c := range g.expandMod(pat) {
+			allowed[c] = mode
+		}
+	}
+	if st.heap["@epoch"] != g.entry.heap["@epoch"] {
+		g.assert(st, "frame", "all", "false", "a callee with unknown effects was called; modifies clause cannot be shown", pos)
+		return
+	}
+	for _, c := range sortedKeys(st.heap) {
+		if c == "@epoch" || c == "alloc" || c == "It" {
+			continue
+		}
+		cur, init := st.heap[c], g.heapGet(g.entry, c)
+		if cur == init {
+			continue
+		}
+		switch allowed[c] {
+		case "any":
+		case "new":
+			g.assert(st, "frame", c, fmt.Sprintf("(forall ((fr Int)) (=> (<= fr %s) (= (select %s fr) (select %s fr))))", g.heapGet(g.entry, "alloc"), cur, init), "only newly allocated objects of "+c+" differ", pos)
+		default:
+			g.assert(st, "frame", c, eq(cur, init), "component "+c+" is not in the modifies clause", pos)
+		}
 	}
 }
 
@@ -158,7 +197,13 @@ func (g *Gen) call(x ssa.Value, cc *ssa.CallCommon, st *State) {
 		oldAlloc := g.heapGet(st, "alloc")
 		for _, pat := range ct.Modifies {
 			for _, c := range g.expandMod(pat) {
+				old := g.heapGet(st, c)
 				g.havocComp(st, c)
+				if strings.HasPrefix(pat, "new ") && c != "alloc" {
+					// only objects allocated by the callee differ
+					nw := g.heapGet(st, c)
+					g.assume(st, fmt.Sprintf("(forall ((fr Int)) (! (=> (<= fr %s) (= (select %s fr) (select %s fr))) :pattern ((select %s fr))))", oldAlloc, nw, old, nw))
+				}
 			}
 		}
 		g.assume(st, "(>= "+g.heapGet(st, "alloc")+" "+oldAlloc+")")
